@@ -225,6 +225,55 @@ func pathsReplay(args []string) int {
 			}
 			rep.classify(raw, c.Exp.Ideal, c.Exp.Alts, eq, func() interface{} { return out }, "paths/"+variant)
 		}
+		// the rule holds where a name is READ, too: a config that holds BOTH a setting NAMED by the spelling (stored
+		// under EnableNumKeys) and a list entry at the spelling's value is unpacked into struct{ F string `config:"<spelling>"` }
+		// under the case's options (and no path separator): the field receives the list entry iff the spelling is an index
+		if c.Pos == "single" && !c.Br && len(c.Key) == 1 {
+			sp := c.Key[0]
+			tagSafe := sp.S != "" && !strings.ContainsAny(sp.S, ",\"` ")
+			if tagSafe && (!c.IsIndex || (sp.Lit && sp.Val >= 0 && sp.Val <= 3)) {
+				var got string
+				panicked, msg := guard(func() {
+					cfg := ucfg.New()
+					if err := cfg.SetString(sp.S, -1, "named", ucfg.EnableNumKeys(true)); err != nil {
+						got = "build: " + err.Error()
+						return
+					}
+					if sp.Lit && sp.Val >= 0 && sp.Val <= 3 {
+						if err := cfg.SetString("", int(sp.Val), "listed"); err != nil {
+							got = "build: " + err.Error()
+							return
+						}
+					}
+					st := reflect.New(reflect.StructOf([]reflect.StructField{{Name: "F", Type: reflect.TypeOf(""),
+						Tag: reflect.StructTag(`config:"` + sp.S + `"`)}}))
+					ropts := []ucfg.Option{ucfg.MaxIdx(c.MaxIdx), ucfg.EnableNumKeys(c.NumKeys)}
+					if c.Esc {
+						ropts = append(ropts, ucfg.EscapePath())
+					}
+					if err := cfg.Unpack(st.Interface(), ropts...); err != nil {
+						got = "unpack: " + err.Error()
+						return
+					}
+					got = st.Elem().Field(0).String()
+				})
+				if panicked {
+					got = "panic: " + msg
+				}
+				want := "named"
+				if c.IsIndex {
+					want = "listed"
+				}
+				if strings.HasPrefix(got, "build: ") {
+					rep.skip()
+				} else if got != want {
+					rep.violate("paths/tag-read", raw, got, want, "a struct tag is an index exactly when the rule says so under the options of the Unpack call")
+				} else {
+					rep.okIdeal()
+					rep.class("tag-read:" + want)
+				}
+			}
+		}
 	}, rep)
 	return rep.finish()
 }
